@@ -78,7 +78,7 @@ class EccentricityHistorySinex(SiteInfoHistoryBase):
                 raise MissingDataError(f"Station {self.station!r} is not given in SITE/ECCENTRICITY SINEX block.")
             raw_info = source_data[self.station]["site_eccentricity"]
         elif self.station.upper() in source_data:
-            if "site_eccentricity" not in source_data[self.station]:
+            if "site_eccentricity" not in source_data[self.station.upper()]:
                 raise MissingDataError(f"Station {self.station.upper()!r} is not given in SITE/ECCENTRICITY SINEX block.")
             raw_info = source_data[self.station.upper()]["site_eccentricity"]
         else:
